@@ -532,7 +532,7 @@ impl<'a> Prog<'a> {
                         self.oracle_fail("C10", "decode_all_wrong", format!("decode_all_to_vec appended {} bytes, expected {}", got.len(), e.len()));
                     }
                 }
-                format!("ok {}", show_bytes(&got))
+                format!("ok {} vec={} pre={}", show_bytes(&got), out.len(), show_bytes(&out[..prefix.len().min(out.len())]))
             }
             Ok(Err(e)) => {
                 if out != prefix {
@@ -543,7 +543,7 @@ impl<'a> Prog<'a> {
                         self.oracle_fail("C10", "decode_all_rejects_valid", format!("decode_all_to_vec failed ({}) with enough spare capacity", frame_err(&e)));
                     }
                 }
-                frame_err(&e)
+                format!("{} vec={} pre={}", frame_err(&e), out.len(), show_bytes(&out[..prefix.len().min(out.len())]))
             }
             Err(p) => {
                 self.oracle_fail("C03", "panic_decode_all", format!("panic in decode_all_to_vec: {}", p));
@@ -551,7 +551,8 @@ impl<'a> Prog<'a> {
             }
         };
         self.must_fail = None;
-        self.emit(format!("dec all {} {}", hex(input), room), s);
+        // the model's `decodeAllToVec` (resize to capacity, decode_all into the spare capacity, truncate back on both paths)
+        self.emit(format!("dec allvec {} {} {}", hex(input), if prefix.is_empty() { "-".to_string() } else { hex(prefix) }, room), s);
     }
     pub fn finished(&mut self) -> bool {
         self.fd().is_finished()
